@@ -1,14 +1,108 @@
 (** C19 - Streamed task output reads back complete, in order, and only from the last run.
-    Only statements closed by [exact]; the proofs live in HQ.Stream.{Codec,Index,Runs,Proofs}. *)
-From HQ Require Import Base.Prelude Gen.Consts Stream.Model Stream.Codec.
+    Only statements closed by [exact]; the proofs live in HQ.Stream.{Codec,Index,Runs,Proofs,Examples}. *)
+From HQ Require Import Base.Prelude Gen.Consts Stream.Model Stream.Codec Stream.Index Stream.Runs Stream.Proofs Stream.Examples.
+Open Scope N_scope.
 
-(** Codec laws of the two headers: decode (encode h ++ rest) = (h, rest) ... *)
+(** Round trip.  For every directory of complete writer files [ws] (any number of files, ANY order
+    of the list = any [read_dir] order; every file = file header + records in queue order, i.e. any
+    interleaving of the chunk sequences of any tasks / instances / channels, any chunk sizes below
+    4 GiB including none at all), and every task whose largest instance's headers are contiguous
+    among the task's headers of ONE file ([last_contig]: a (task, instance) is written by one
+    worker through one FIFO queue; other instances may be anywhere, also alternating):
+    [open] succeeds, the reported instance is the largest one, the bytes returned per channel are
+    exactly the concatenation of the data chunks that instance wrote on that channel, in order,
+    [finished] iff it wrote an end marker, and all other index entries of the task are superseded
+    entries with strictly smaller instance ids. *)
+Theorem C19_roundtrip : forall u ws job task ch,
+  Forall wf_ok ws -> Forall (fun w => fh_uid (fst w) = u) ws ->
+  last_contig (map wf_afile ws) (job, task) = true -> ch < 2 ->
+  exists lg X R i,
+    open (hqs_ents (map wf_bytes ws)) None = ROk lg
+    /\ max_inst (job, task) (all_recs ws) = Some i
+    /\ gather (lg_index lg) job task = ROk R /\ in_id R = i
+    /\ in_fin R = spec_finished (job, task) i (all_recs ws)
+    /\ read_channel lg job task ch = ROk (spec_bytes (job, task) i ch (all_recs ws))
+    /\ lookup (job, task) (lg_index lg) = Some (X ++ [R]) /\ superseded (X ++ [R]) = X
+    /\ Forall (fun J => in_id J < i) X.
+Proof. exact roundtrip. Qed.
+
+(** Torn file.  One writer file cut at ANY byte offset [n] at or after its file header (the other
+    files complete, any order): the reader does not fail; per task and channel it returns exactly
+    the data of the surviving complete chunks of the largest surviving instance, or the I/O error
+    [E_IO_EOF] when the cut chunk belongs to that instance and channel ([spec_read]) - never other
+    bytes; [finished] = a surviving end marker of that instance ([spec_fin]). *)
+Theorem C19_torn_file : forall u ws1 w ws2 n a job task ch,
+  Forall wf_ok (ws1 ++ w :: ws2) -> Forall (fun w => fh_uid (fst w) = u) (ws1 ++ w :: ws2) ->
+  cut_file (fst w) (snd w) n = Some a ->
+  let fs := map wf_afile ws1 ++ a :: map wf_afile ws2 in
+  let bs := map wf_bytes ws1 ++ firstnN n (wf_bytes w) :: map wf_bytes ws2 in
+  last_contig fs (job, task) = true -> ch < 2 ->
+  exists lg X R i,
+    open (hqs_ents bs) None = ROk lg
+    /\ max_inst (job, task) (all_seen fs) = Some i
+    /\ gather (lg_index lg) job task = ROk R /\ in_id R = i
+    /\ in_fin R = spec_fin fs (job, task)
+    /\ read_channel lg job task ch = spec_read fs (job, task) ch
+    /\ lookup (job, task) (lg_index lg) = Some (X ++ [R]) /\ superseded (X ++ [R]) = X
+    /\ Forall (fun J => in_id J < i) X.
+Proof. exact torn_file. Qed.
+
+(** ... the bytes a cut file still contains are those of [cut_file]'s abstract file, for every [n] *)
+Theorem C19_cut_any_byte : forall w n a,
+  wf_ok w -> cut_file (fst w) (snd w) n = Some a -> file_repr (firstnN n (wf_bytes w)) a.
+Proof. exact cut_file_repr. Qed.
+
+(** ... and a file cut inside its file header fails [check_header] with EOF: [open] skips it. *)
+Theorem C19_torn_header_skipped : forall w n,
+  wf_ok w -> cut_file (fst w) (snd w) n = None -> check_header (firstnN n (wf_bytes w)) = DEof.
+Proof. exact cut_file_header. Qed.
+
+(** General form behind both: any directory whose files are [file_repr]-related to abstract files
+    (complete records + at most one torn record + a partial header). *)
+Theorem C19_reader_spec : forall u bs fs job task ch,
+  Forall2 file_repr bs fs -> Forall (fun a => fh_uid (af_hdr a) = u) fs ->
+  last_contig fs (job, task) = true -> ch < 2 ->
+  exists lg X R i,
+    open (hqs_ents bs) None = ROk lg
+    /\ max_inst (job, task) (all_seen fs) = Some i
+    /\ lookup (job, task) (lg_index lg) = Some (X ++ [R])
+    /\ gather (lg_index lg) job task = ROk R
+    /\ superseded (X ++ [R]) = X
+    /\ Forall (fun J => in_id J < i) X
+    /\ in_id R = i
+    /\ in_fin R = spec_fin fs (job, task)
+    /\ read_channel lg job task ch = spec_read fs (job, task) ch.
+Proof. exact reader_spec. Qed.
+
+(** Superseded instances are separate: full statement (exact ids and channel sizes of the
+    superseded entries when every instance is contiguous) ... *)
+Definition C19_superseded_full : Prop := forall u bs fs job task lg insts,
+  Forall2 file_repr bs fs -> Forall (fun a => fh_uid (af_hdr a) = u) fs ->
+  all_contig fs (job, task) = true ->
+  open (hqs_ents bs) None = ROk lg -> lookup (job, task) (lg_index lg) = Some insts ->
+  map (fun J => (in_id J, channel_size J 0, channel_size J 1)) (superseded insts)
+  = map (fun i => (i, spec_size (job, task) i 0 (all_seen fs), spec_size (job, task) i 1 (all_seen fs)))
+        (other_insts fs (job, task)).
+
+(** ... proved part: the superseded entries are exactly the index entries other than the reported
+    one and all carry strictly smaller instance ids (so nothing of them is in the result). *)
+Theorem C19_superseded_separate_partial : forall u bs fs job task ch,
+  Forall2 file_repr bs fs -> Forall (fun a => fh_uid (af_hdr a) = u) fs ->
+  last_contig fs (job, task) = true -> ch < 2 ->
+  exists lg X R i,
+    open (hqs_ents bs) None = ROk lg /\ max_inst (job, task) (all_seen fs) = Some i
+    /\ lookup (job, task) (lg_index lg) = Some (X ++ [R]) /\ gather (lg_index lg) job task = ROk R
+    /\ superseded (X ++ [R]) = X /\ Forall (fun J => in_id J < i) X /\ in_id R = i
+    /\ in_fin R = spec_fin fs (job, task)
+    /\ read_channel lg job task ch = spec_read fs (job, task) ch.
+Proof. exact reader_spec. Qed.
+
+(** Codec laws. *)
 Theorem C19_codec_chunk_header : forall h rest,
   header_ok h = true ->
   dec_chunk_header (enc_chunk_header h ++ rest) = DOk h rest (lenN (enc_chunk_header h)).
 Proof. exact dec_enc_chunk_header. Qed.
 
-(** ... and every strict prefix of an encoding is detected as end of file. *)
 Theorem C19_codec_chunk_header_prefix : forall h p q,
   header_ok h = true -> enc_chunk_header h = p ++ q -> q <> [] -> dec_chunk_header p = DEof.
 Proof. exact dec_chunk_header_prefix. Qed.
@@ -22,7 +116,36 @@ Theorem C19_codec_file_header_prefix : forall h p q,
   file_header_ok h = true -> enc_file_header h = p ++ q -> q <> [] -> check_header p = DEof.
 Proof. exact check_header_prefix. Qed.
 
+(** Known finding F20: "reported finished => complete" is false of the faithful model (the reader
+    sets [finished] at the first end marker of either channel) ... *)
+Theorem C19_finished_complete_refuted : ~ C19_finished_complete_full.
+Proof. exact finished_complete_refuted. Qed.
+
+(** ... and outside the class [f20_class] a stream reported finished lost no record. *)
+Theorem C19_finished_outside_F20_partial : forall orig fs k i,
+  f20_class orig fs k = false -> max_inst k (all_seen fs) = Some i ->
+  spec_finished k i (all_complete fs) = true ->
+  count_inst k i (all_seen orig) <= count_inst k i (all_complete fs).
+Proof. exact finished_outside_f20. Qed.
+
+(** Non-vacuity. *)
+Theorem C19_example_hyps :
+  Forall wf_ok [wB; wA] /\ last_contig (map wf_afile [wB; wA]) (1, 0) = true
+  /\ last_contig (map wf_afile [wA; wB]) (1, 0) = true /\ all_contig (map wf_afile [wA; wB]) (1, 0) = true.
+Proof. exact ex_roundtrip_hyps. Qed.
+
+Check C19_roundtrip.
+Check C19_torn_file.
+Print Assumptions C19_roundtrip.
+Print Assumptions C19_torn_file.
+Print Assumptions C19_cut_any_byte.
+Print Assumptions C19_torn_header_skipped.
+Print Assumptions C19_reader_spec.
+Print Assumptions C19_superseded_separate_partial.
 Print Assumptions C19_codec_chunk_header.
 Print Assumptions C19_codec_chunk_header_prefix.
 Print Assumptions C19_codec_file_header.
 Print Assumptions C19_codec_file_header_prefix.
+Print Assumptions C19_finished_complete_refuted.
+Print Assumptions C19_finished_outside_F20_partial.
+Print Assumptions C19_example_hyps.
